@@ -265,6 +265,7 @@ func scenBudget(rng *rand.Rand, tr *sim.Trace, seg int, events int) {
 	// waiting for budget that can never come (burst 0) fails at once; with burst > 0 and a negligible rate a
 	// waiting reply would block for good, so wait-to-reply is only combined with burst 0 here
 	o.wait = o.burst == 0 && rng.Intn(2) == 0
+	o.defaultLimiter = rng.Intn(4) == 0
 	h := newH(rng, tr, seg, o)
 	defer h.close()
 	for i := 0; i < events; i++ {
@@ -306,13 +307,17 @@ func scenBudget(rng *rand.Rand, tr *sim.Trace, seg int, events int) {
 			h.lim.AllowN(time.Now(), -k)
 			h.tr.Emit(sim.M{"seg": h.seg, "e": "Refill", "k": k})
 		case 7:
-			atomic.StoreInt32(&h.failNext, int32(1+rng.Intn(2)))
+			which := &h.failNext
+			if rng.Intn(2) == 0 {
+				which = &h.shortNext // a socket that takes the datagram but reports a short count: the budget is spent all the same
+			}
+			atomic.StoreInt32(which, int32(1+rng.Intn(2)))
 			id := randID(rng)
 			for j := 0; j < 3; j++ {
 				h.in(h.randSrc(), &query{method: "ping", t: h.nextT(), hasA: true, id: id, port: -1})
 			}
 			h.settleLoose()
-			atomic.StoreInt32(&h.failNext, 0)
+			atomic.StoreInt32(which, 0)
 		}
 	}
 }
